@@ -484,3 +484,44 @@ func ConcatOffset(p *core.Prog, r *core.Report) {
 	}
 	r.Ok("CONCAT-OFFSET", key, p.Pos(tr.Pos()), "Expand(0, len(acc)) before acc = append(acc, piece.Bytes()...)")
 }
+
+// WrapCond decides WRAP-COND on gts.Slice: the wrap-around branch (the one
+// that rotates and re-slices) is taken exactly when end < start, so that an
+// empty window start == end stays empty.
+func WrapCond(p *core.Prog, r *core.Report) {
+	r.Rule("WRAP-COND", "the branch of gts.Slice that rotates the sequence and slices again is guarded by exactly `end < start` (strict): an empty window [s, s) is not a wrap-around window", 1)
+	info := p.Info(core.PkgGts)
+	fd := p.FuncDecl(core.PkgGts, "Slice")
+	if fd == nil || fd.Body == nil {
+		r.Und("WRAP-COND", "gts.Slice|anchor", "-", "anchor-unresolved")
+		return
+	}
+	r.Fn("gts.Slice")
+	var guard *ast.IfStmt
+	for _, st := range fd.Body.List {
+		is, ok := st.(*ast.IfStmt)
+		if !ok {
+			continue
+		}
+		for _, c := range core.Calls(is.Body) {
+			if core.IsCallTo(info, c, core.PkgGts+".Rotate") || core.IsCallTo(info, c, core.PkgGts+".Slice") {
+				guard = is
+			}
+		}
+	}
+	if guard == nil {
+		r.Bad("WRAP-COND", "gts.Slice", p.Pos(fd.Pos()), "no wrap-around branch (a window with end < start is not handled)")
+		return
+	}
+	be, ok := ast.Unparen(guard.Cond).(*ast.BinaryExpr)
+	good := false
+	if ok {
+		x, y := core.ParamIndex(info, fd, core.ObjOf(info, be.X)), core.ParamIndex(info, fd, core.ObjOf(info, be.Y))
+		good = be.Op == token.LSS && x == 2 && y == 1 || be.Op == token.GTR && x == 1 && y == 2
+	}
+	if good {
+		r.Ok("WRAP-COND", "gts.Slice", p.Pos(guard.Pos()), "wraps exactly when end < start")
+	} else {
+		r.Bad("WRAP-COND", "gts.Slice", p.Pos(guard.Pos()), "the wrap-around branch is guarded by `"+types.ExprString(guard.Cond)+"`, not by `end < start`: an empty window is turned into the whole rotated sequence (or a reversed window is not wrapped)")
+	}
+}
